@@ -246,14 +246,7 @@ class Composition(Loggable):
 
         self.logger.info("run composition")
         while len(time_components) > 0:
-            sort_components = list(time_components)
-            sort_components.sort(key=lambda m: m.time)
-            to_update = sort_components[0]
-            updated = self._update_recursive(to_update)
-            self._check_status(
-                updated, [ComponentStatus.VALIDATED, ComponentStatus.UPDATED]
-            )
-
+            # nothing to do (anymore) if all components reached the end time
             any_running = False
             for comp in time_components:
                 if comp.status != ComponentStatus.FINISHED and comp.time < end_time:
@@ -262,6 +255,14 @@ class Composition(Loggable):
 
             if not any_running:
                 break
+
+            sort_components = list(time_components)
+            sort_components.sort(key=lambda m: m.time)
+            to_update = sort_components[0]
+            updated = self._update_recursive(to_update)
+            self._check_status(
+                updated, [ComponentStatus.VALIDATED, ComponentStatus.UPDATED]
+            )
 
         self._finalize_components()
         self._finalize_composition()
